@@ -48,7 +48,8 @@ CHECKS = {
         "C03_unknown_hash_is_refused in Props/C03_history.v) about the get_hash_index GENERATED from policy/base.py by "
         "tools/tr_history.py, under the stated hypotheses on sha1 (injective in the previous hash; '' is not a digest); the same "
         "translator regenerates commit / discard_after / _last_playlog / last_events / _current_ckpt and C03_src_* prove them equal "
-        "to the definitions of the engine model.",
+        "to the definitions of the engine model; C03_src_every_history_is_chained (every sequence of generated commit / "
+        "discard_after calls keeps the hash chain) and C03_src_rollback_lands_on_the_tip are stated for the generated code alone.",
    technique="Coq proof (induction over step lists) over the engine model + trace-driven correspondence",
    design="7 C03"),
  "C04": dict(
